@@ -3,6 +3,12 @@ HOOK_COMMITS = []
 NOT_CLAIMED = {}
 TECH = 'TLA+ spec (L1 semantics) + TLC: bounded model checking, TLC-generated cases replayed into engeom, TLC trace validation of recorded observations'
 CLAIMS = {
+    'C01': {
+        'text': 'TLC enumerates every input vertex sequence of up to 3 points on a 4x4 (quick) / 5x5 (thorough) lattice with integer-length steps, including repeated points and steps merged by a one-unit tolerance, x tolerance kind x force_closed x 2D/3D (three liftings) x power-of-two scales, and for each curve every half-lattice arc length from below 0 to above L plus every vertex length +-1 ulp (as an infinitesimal), the same places by fraction, by iteration and front/back; the laws of the length/position operators are model-checked; every case is run through Curve2/Curve3 and TLC judges vertex list, closedness, cumulative lengths and every station (None exactly outside [0,L]; index+fraction reproduce l; exact rational point; edge direction or the vertex rule; normal) against the L1 operators. Seeded random 4..40-vertex lattice curves with Pythagorean edges extend the instance sizes.',
+        'design_ref': 'DESIGN.md section 6 C01',
+        'note': 'Trusted: TLC, harness projection (2^-16 unit quantisation, next_up/next_down for the infinitesimals). Edge lengths are integers times 2^k; irrational edge lengths are not in the exact domain. Vertices where adjacent directions cancel are exempt from the direction clause.',
+        'technique': TECH,
+    },
     'C18': {
         'text': 'TLC enumerates every lattice angle k*TAU/16 (|k|<=40/64, each +-1 ulp), every pair for directed angles, all pairs of lattice vectors in [-2,2]^2, every (start, extent) angular interval on Z_16 x -18..18 against 72 test angles, the full intersects table and all scalar intervals over {-inf,-2..2,+inf}; checks the arc/interval algebra laws on the spec; every case is executed by the real library and TLC judges each observation against the L1 set semantics (results free only within ANGLE_TOL of arc ends). Random finite angles up to 1e6 are judged through sin/cos agreement. This is the right level because the property is a finite case analysis around wrap points that the lattice hits exactly.',
         'design_ref': 'DESIGN.md section 6 C18',
